@@ -310,6 +310,22 @@ def _platpair_chunk(states):
             continue
         oscls = f"{st['p']['os']},{st['q']['os']}"
         ctx = {"p": st["p"], "q": st["q"], "compare": c, "reverse": rv, "spec_compare": st["obs"]["cmp"]}
+        # "accepted" is what the public entry point answers, not only what the list holds: every tag the older platform
+        # accepts through EnvSpec.compatibility is accepted by the newer one through EnvSpec.compatibility
+        if newer or c == "LOWER_OR_EQUAL":
+            try:
+                lost = [t for t in p.compatible_tags
+                        if x.compatibility(["py3"], ["none"], [t]) is not None and y.compatibility(["py3"], ["none"], [t]) is None]
+                unlisted = [t for t in p.compatible_tags if x.compatibility(["py3"], ["none"], [t]) is None]
+            except Exception as e:  # noqa: BLE001
+                fails.append((f"C16:compatibility({oscls}):raises-{type(e).__name__}", repr(e), ctx))
+                continue
+            if lost:
+                fails.append((f"C16:platform({st['p']['os']},{st['p']['arch']}):newer-rejects-accepted-tag",
+                              f"{x} accepts {lost[:3]} through compatibility(); {y} ({'newer' if newer else 'compare() says >='}) rejects them", ctx))
+            if unlisted:
+                fails.append((f"C16:platform({st['p']['os']},{st['p']['arch']}):listed-tag-rejected",
+                              f"{x}: compatible_tags lists {unlisted[:3]} but compatibility() rejects them", ctx))
         if st["p"] == st["q"] and c != "LOWER_OR_EQUAL":
             fails.append((f"C16:compare({oscls}):not-reflexive", f"{x}.compare(itself) = {c}", ctx))
         if (c == "INCOMPATIBLE") != (rv == "INCOMPATIBLE"):
